@@ -12,7 +12,7 @@ RULE = (
     "may fail at the end of the data or on a part of it) read three times, alternately through Reader.rows() with an explicit close() and through cutplace.rows() - "
     "on_error = yield, continue, raise - on freshly loaded CIDs from six storages; relational oracle: continue == accepted "
     "rows of yield, raise == prefix before the first rejection + that same error (type and text), yielded errors keep "
-    "their location after the iteration moved on, accepted + rejected == number of data rows; each also compared with "
+    "their location after the iteration moved on, accepted + rejected == number of data rows (also under a validation limit, where the rows behind it count as accepted); each also compared with "
     "M-reader. Container faults injected at every row boundary k: unterminated quote opened in row k, UTF-16 / UTF-32 data without byte order mark, fixed data that end at every position inside their last record, undecodable byte in "
     "row k (files, utf-8 and ascii), fixed record k cut short or its delimiter replaced, ODS/XLSX archives truncated at "
     "every 64th byte and content.xml cut - expected: rows before the fault as usual (a prefix for decoding faults), then "
@@ -45,7 +45,7 @@ def run_modes(ctx, model, make_src, case, expected, fault=None):
         source = make_src()
         ctx.count("reads.%s" % mode)
         try:
-            observations[mode] = reader_function(cid, source, mode=mode)
+            observations[mode] = reader_function(cid, source, mode=mode, until=case.get("until"))
         except OSError as error:
             if fault and fault["kind"] in ("archive-truncated", "content-xml-cut"):
                 ctx.unjudged("damaged archive reported as OSError (environment)")
@@ -189,6 +189,10 @@ def clean_case(ctx, index):
     if rng.random() < 0.6:
         add_distinct(rng, model)
     case = {"cid": model.to_json(), "table": table, "storage": store, "fault": None, "api": api}
+    if rng.random() < 0.3:
+        # under a validation limit too: the rows behind it are returned without being judged, and counted all the same
+        case["until"] = rng.randint(0, len(table) + 1)
+        ctx.count("cases.with-validation-limit")
     check_clean(ctx, model, table, store, case)
 
 
@@ -202,7 +206,7 @@ def check_clean(ctx, model, table, store, case):
         return src
 
     _, raw, _ = gen.make_source(ctx, model, table, store, tag="probe")
-    run = RM.expected_run(model, raw)
+    run = RM.expected_run(model, raw, validate_until=case.get("until"))
     rejections = 0 if run is None else sum(1 for e in run["items"] if e[0] == "error")
     ctx.case(case, rejections >= 1)
     run_modes(ctx, model, make_src, case, {"raw": raw, "run": run})
